@@ -97,6 +97,7 @@ package bytes
 //@   props C07 C10
 //@   requires len(b) > 0
 //@   nopanic
+//@   defines result1 == nil ==> result0 == intValOf(b)
 
 //@ func (Bytes).IsUserTypeName()
 //@   props C03 C07
